@@ -51,6 +51,51 @@ def small_programs(spec):
             yield q, "viol:" + o["id"]
 
 
+def top_shapes(spec):
+    """tiny headerless files that vary what the file *begins* with (nothing, globals, prototypes, a typedef, directives,
+    a comment), whether an empty line separates that from the first function, and what stands between the function's
+    declarator and its `{` (comments of 1..14 lines, directives): the places where rules look back at the start of the
+    file or count lines from it"""
+    from nv.gen.ir import TAB, Prog
+    r = random.Random("c19t/%s/%d" % (spec["seed"], spec["shard"]))
+
+    def fn(name, between, idx):
+        L = [Line("fhead", [("int", "type"), TAB(1), (name, "id:func"), ("(", "punct"), ("int", "type"), SP, ("a", "id:param"), (")", "punct")], 0, idx)]
+        L += [Line("comment" if t.startswith("/") else "pp_other", [(t, "comment:multi" if "\n" in t else ("comment:block" if t.startswith("/*") else
+                                                                      ("comment:line" if t.startswith("//") else "pp")))], 0, idx) for t in between]
+        L += [Line("fopen", [("{", "punct")], 0, idx), Line("stmt", [IND(1), ("return", "kw"), SP, ("(", "punct"), ("a", "id:var"), (")", "punct"), (";", "punct")], 1, idx),
+              Line("fclose", [("}", "punct")], 0, idx)]
+        return L
+    firsts = [[], [("global", "int\tg_a;")], [("global", "int\tg_a;"), ("global", "char\tg_b;")], [("proto", "int\tft_p(void);")],
+              [("proto", "int\tft_p(void);"), ("proto", "int\tft_q(int a);")], [("td_simple", "typedef int\tt_x;")],
+              [("pp_include", "#include <unistd.h>")], [("pp_define", "#define N 1")], [("comment", "/* top */")], [("comment", "// top")],
+              [("global", "static int\tg_a = 0;"), ("proto", "int\tft_p(void);")]]
+    for k in range(max(8, spec["n"])):
+        first = firsts[(k + spec["shard"]) % len(firsts)]
+        L = [Line(kind, [(t, "raw")]) for kind, t in first]
+        if first and r.random() < 0.6:
+            L.append(Line("blank", []))
+        nb = r.choice([0, 0, 1, 2])
+        between = []
+        for j in range(nb):
+            x = r.random()
+            if x < 0.25:
+                between.append("// c%d" % j)
+            elif x < 0.45:
+                between.append("/* c%d */" % j)
+            elif x < 0.8:
+                n = r.choice([1, 2, 3, 5, 8, 14])
+                between.append("/*\n" + "".join("** line %d\n" % i for i in range(n)) + "*/")
+            else:
+                between.append(r.choice(["#define Y 1", "#pragma once", "#ifdef X\n#endif"]))
+        L += fn("ft_one", between, 0)
+        if r.random() < 0.5:
+            if r.random() < 0.7:
+                L.append(Line("blank", []))
+            L += fn("ft_two", [], 1)
+        yield Prog("test.c", L), "shape:c"
+
+
 def extra_variants(spec):
     """violating families outside the C02 catalogue that change how later text is scoped: a type defined in
     a .c file after a function, with its brace on the keyword line or on its own line"""
@@ -98,7 +143,7 @@ def run_shard(spec):
     import itertools
     header_only = "\n".join(l.text() for l in conf.Gen("h").header_lines("pred.c")) + "\n"
     for p, tag in itertools.chain(relwork.corpus(spec, header=False, nvar=4, force=("V71a",)), small_programs(spec),
-                                  extra_variants(spec)):
+                                  extra_variants(spec), top_shapes(spec)):
         if r.random() < 0.2:
             # another file analysed just before in the same process (a header-only file, a comment-only file, nothing)
             pk = r.choice(["header_only", "comment_only", "empty"])
